@@ -272,10 +272,11 @@ func (win Window) Wrap(segs ...Segment) (col int, row int) {
 			segment, rest, _, state = uniseg.FirstLineSegmentInString(rest, state)
 			chars := Characters(segment)
 			total := 0
-			for _, char := range chars {
+			for i, char := range chars {
 				if !win.Vx.caps.unicodeCore || !win.Vx.caps.explicitWidth {
 					// characterWidth will cache the result
 					char.Width = win.Vx.characterWidth(char.Grapheme)
+					chars[i] = char
 				}
 				total += char.Width
 			}
